@@ -130,7 +130,7 @@ func init() {
 	register(&check{
 		id:    "C14",
 		level: "model_checking",
-		rule: "every word of ≤ N segments (N=6 quick, 7 thorough) over the 8 segment kinds × IFS ∈ {unset, default, ' ,', ',', ':', '', 'é,', '|', ' x', '_~<nl>', '\\@'} × realisations {literal parts, $var parts, single-quoted}; " +
+		rule: "every word of ≤ N segments (N=6 quick, 7 thorough) over the 8 segment kinds × IFS ∈ {unset, default, ' ,', ',', ':', '', 'é,', '|', ' x', '_~<nl>', '\\@', '<nl>', ' '} (white space outside IFS — tab, space, newline or CR — is a segment kind of its own, also between ordinary characters when IFS is white space only) × realisations {literal parts, $var parts, single-quoted}; " +
 			"plus words of 1…40 repetitions of 9 segment units; plus histories on ONE environment: every sequence of ≤ 3 (thorough 4) IFS settings with 5 probe words (literal and through a variable) expanded after each change, and every pair (IFS₁, probe) → (IFS₂, word ≤ 3 characters over {a space , : é tab}); " +
 			"non-trivial = the rule yields ≥ 2 fields (the word really is cut), and every history",
 		assume: []string{"reference splitter written from the property statement (c14Ref)", "NoGlob set so that pathname expansion does not interfere; words are AST values (white space cannot be written literally)"},
@@ -163,7 +163,7 @@ func c14Run(w *W) {
 	ifsList := []struct {
 		v   string
 		set bool
-	}{{"", false}, {" \t\n", true}, {" ,", true}, {",", true}, {":", true}, {"", true}, {"é,", true}, {"|", true}, {" x", true}, {"_~\n", true}, {"\\@", true}}
+	}{{"", false}, {" \t\n", true}, {" ,", true}, {",", true}, {":", true}, {"", true}, {"é,", true}, {"|", true}, {" x", true}, {"_~\n", true}, {"\\@", true}, {"\n", true}, {" ", true}}
 	for _, ifs := range ifsList {
 		eff := ifs.v
 		if !ifs.set {
@@ -178,7 +178,7 @@ func c14Run(w *W) {
 				nws = string(r)
 			}
 		}
-		for _, c := range []string{"\t", " ", "\n"} {
+		for _, c := range []string{"\t", " ", "\n", "\r"} {
 			if !strings.Contains(eff, c) {
 				other = c
 				break
@@ -193,6 +193,10 @@ func c14Run(w *W) {
 		}
 		if other != "" {
 			kinds = append(kinds, c14Seg{other, false})
+			if nws == "" {
+				// IFS is white space only: white space that is not in it is ordinary text inside a field
+				kinds = append(kinds, c14Seg{"a" + other + "b", false})
+			}
 		}
 		cur := make([]c14Seg, 0, n)
 		var rec func()
